@@ -399,6 +399,25 @@ def RTCSctpTransport(rng, inst):
     # units that await it can run on this partial object without the whole send path
     t._outbound_queue = collections.deque([DataChunk()] if t._association_state == T.State.ESTABLISHED else [])
     t._outbound_stream_seq = {}
+    if t._data_channels and rng.random() < 0.4:
+        # user messages waiting to be flushed, for channels with and without a packet lifetime; nothing in the way
+        chans = list(t._data_channels.values())
+        for ch_ in chans:
+            if rng.random() < 0.5:
+                ch_._RTCDataChannel__parameters.maxPacketLifeTime = rng.choice([0, 50, 3000])
+                ch_._RTCDataChannel__parameters.maxRetransmits = None
+        for _ in range(rng.randrange(1, 4)):
+            ch_ = rng.choice(chans)
+            data_ = rng.choice([b"x", b"hello", b""])
+            t._data_channel_queue.append((ch_, rng.choice([51, 53, 50]), data_))
+            ch_._RTCDataChannel__bufferedAmount += len(data_)
+        t._outbound_queue = collections.deque()
+        if rng.random() < 0.7:
+            import asyncio
+            try:
+                asyncio.new_event_loop().run_until_complete(t._data_channel_flush())
+            except Exception:
+                pass
     t._reconfig_queue = []
     t._reconfig_request = None
     t._reconfig_request_seq = tsn
